@@ -22,7 +22,8 @@ PROPERTY = 'C13'
 LEVEL = 'exploration'
 RULE = ('every ordering of the 10 LaTeX-active ASCII characters # $ % & \\ ^ _ { } ~ up to length 3 mixed with the neighbours '
         'a, space, b (exhaustive), every character with a built-in rule alone and in 6 neighbour contexts, and random '
-        'mixtures incl. control, combining, astral, unassigned and surrogate code points; x 5 protection schemes x 2 '
+        'mixtures incl. control, combining, astral, unassigned and surrogate code points; every code point below U+0400 '
+        'alone and between letters under every policy; x 5 protection schemes x 2 '
         'built-in rule sets x 5 unknown-character policies. Non-trivial = input containing an active character or a '
         'character with a built-in rule; distinct = distinct (input, rule set, scheme, policy).')
 EXHAUSTIVE = {'quick': False, 'thorough': False}
@@ -47,16 +48,19 @@ def plan(tier, seed):
     if tier == 'quick':
         return [{'kind': 'active', 'k': k, 'n': 4, 'name': 'active%d' % k} for k in range(4)] + \
                [{'kind': 'keys', 'k': k, 'n': 6, 'name': 'keys%d' % k} for k in range(6)] + \
-               [{'kind': 'random', 'count': 2500, 'name': 'rand%d' % k} for k in range(6)]
+               [{'kind': 'random', 'count': 2500, 'name': 'rand%d' % k} for k in range(6)] + \
+               [{'kind': 'norule', 'k': k, 'n': 2, 'extra': 600, 'name': 'norule%d' % k} for k in range(2)]
     return [{'kind': 'active', 'k': k, 'n': 8, 'full': True, 'name': 'active%d' % k} for k in range(8)] + \
            [{'kind': 'keys', 'k': k, 'n': 12, 'full': True, 'name': 'keys%d' % k} for k in range(12)] + \
-           [{'kind': 'random', 'count': 40000, 'name': 'rand%d' % k} for k in range(12)]
+           [{'kind': 'random', 'count': 40000, 'name': 'rand%d' % k} for k in range(12)] + \
+           [{'kind': 'norule', 'k': k, 'n': 8, 'extra': 20000, 'full': True, 'name': 'norule%d' % k} for k in range(8)]
 
 
 def floors(tier):
     return {'evaluations': 40000, 'distinct_nontrivial': 20000, 'outputs_parsed_strictly': 30000,
             'ascii_checked': 10000, 'fail_policy_decided': 5000, 'fail_policy_raised': 200,
-            'histkeys:scheme': 5, 'histkeys:ruleset': 2, 'histkeys:policy': 5, 'k1_witness_checked': 5}
+            'histkeys:scheme': 5, 'histkeys:ruleset': 2, 'histkeys:policy': 5, 'k1_witness_checked': 5,
+            'codepoints_probed_alone': 1000}
 
 
 def setup(rec):
@@ -239,6 +243,25 @@ def run_shard(desc, rec):
                 rec.case()
                 rec.nontrivial((s, rs, sc, po))
                 check_case({'s': s, 'ruleset': rs, 'scheme': sc, 'policy': po}, rec)
+    elif kind == 'norule':
+        # every code point below U+0400 (and a sample above, incl. surrogates, private use, unassigned, astral):
+        # the boundary between pass-through ASCII, characters with a rule and characters left to the policy
+        cps = [c for c in range(0, 0x400) if c != 127]
+        for _ in range(desc['extra']):
+            cps.append(rng.choice([rng.randrange(0x400, 0x3000), rng.randrange(0x3000, 0x10000),
+                                   rng.randrange(0x10000, 0x110000), rng.randrange(0xd800, 0xe000)]))
+        for idx, o in enumerate(cps):
+            if idx % desc['n'] != desc['k']:
+                continue
+            ch = chr(o)
+            rec.monitor('codepoints_probed_alone')
+            for s in (ch, 'a' + ch + 'b'):
+                for po in POLICIES:
+                    for rs in RULESETS:
+                        sc = SCHEMES[(idx + len(s)) % 5]
+                        rec.case()
+                        rec.nontrivial((s, rs, sc, po))
+                        check_case({'s': s, 'ruleset': rs, 'scheme': sc, 'policy': po}, rec)
     elif kind == 'keys':
         keys = sorted(set(table('defaults')) | set(table('unicode-xml')))
         for idx, o in enumerate(keys):
